@@ -189,7 +189,7 @@ def OwnSig (s : Sig) : Prop := s = .oof ∨ (∃ e, s = .exn e) ∨ s = .stop
     to the next as the consumer left it, and passes the consumer's reasons on as they are. For a
     Python generator this is lexical scoping of local variables. -/
 def FrameLocal (g : Gen) : Prop :=
-  ∀ (ν : PyLoc → Prop) (ρ : PyLoc → Sig → Sig → Prop), (∀ σ s, OwnSig s → ρ σ s s) →
+  ∀ (ν : PyLoc → Prop) (ρ : PyLoc → Sig → Sig → Prop), (∀ σ s, ν σ → OwnSig s → ρ σ s s) →
     ∀ K1 K2 : K, (∀ w σ, ν σ → RelF ν ρ (K1 (w.push σ)) (K2 w)) →
       ∀ w σ, ν σ → RelF ν ρ (g K1 (w.push σ)) (g K2 w)
 
@@ -240,8 +240,8 @@ theorem loop_correct (Γ : List Nat) (env : Env) (g : Gen) (hg : FrameLocal g) (
     | brk l he hl hs' => exact ⟨σ', rfl, .some _ _ (.brk l he hl hs')⟩
     | ret => exact ⟨σ', rfl, .some _ _ .ret⟩
     | sig s hp' => exact ⟨σ', rfl, .some _ _ (.pass s hp')⟩
-  have hρ : ∀ σ s, OwnSig s → LoopRel Γ env σ s s := by
-    intro σ s hs
+  have hρ : ∀ σ s, (σ.1 = env ∧ Inv Γ σ.2) → OwnSig s → LoopRel Γ env σ s s := by
+    intro σ s _ hs
     refine .pass s ?_
     rcases hs with h | h | h
     · exact Or.inr (Or.inl h)
